@@ -53,6 +53,14 @@ spec fn sameV6(a netip.Addr, ip []byte) bool =
   addrValid(a) && !addrIs4(a) && !addrZoned(a) && (forall i in 0..16: addrByte(a, i) == ip16Byte(ip, i))
 spec fn isIP4(ip []byte) bool = len(ip) == 4 || isV4Mapped(ip)
 
+// Methods with pointer receivers that do not document nil-receiver
+// behaviour must be called on non-nil receivers.
+func (*HostPort).UnmarshalText
+  requires hp != nil
+
+func (*Prefix).UnmarshalText
+  requires p != nil
+
 func ZeroPrefix
   requires fam == AddrFamilyIPv4 || fam == AddrFamilyIPv6
 
